@@ -1,0 +1,5 @@
+//go:build !verif
+
+package daemon
+
+func verifYield(string) {}
